@@ -117,7 +117,9 @@ def addTables (t : Tables) : List String → Option Tables
 
 /-- op tokens ↦ (kind, message, ideal label, tables extended by the op's oracle) -/
 def parseOp (t : Tables) : List String → Option (String × Msg × String × Tables)
-  | kind :: rest =>
+  | kind0 :: rest =>
+    -- the end-to-end ops are the same model steps, executed through two real swarms
+    let kind := if kind0 = "e2e-identify" then "identify" else if kind0 = "e2e-push" then "push" else kind0
     if rest.length = 13 then do
       let m ← parseMsg (rest.take 7)
       let t' ← addTables t (rest.drop 8)
@@ -181,10 +183,17 @@ def idealOk (env : Env Nat Nat) (m : Msg) (ideal : String) : Bool :=
     | none => false
   if ideal = "1" then used else if ideal = "0" then !used else true
 
+def isWire : List String → Bool
+  | [k, _] => k = "wire-identify" || k = "wire-push"
+  | _ => false
+
 def machine : Machine MSt SSt where
   init cfg := { p := cfgPeer cfg }
   specInit cfg := { p := cfgPeer cfg }
   op s args :=
+    -- malformed stream: no message reaches the decision logic; state unchanged, which error is
+    -- raised is the codec's business ("-" = judged by the Spec only)
+    if isWire args then (s, "-") else
     match parseOp s.t args with
     | none => (s, "bad-op")
     | some (kind, m, _, t') =>
@@ -203,6 +212,10 @@ def machine : Machine MSt SSt where
         ({ s with st := st' }, showOut env out)
       else (s, "bad-op")
   spec s args outs :=
+    if isWire args then
+      (s, match outs with
+          | [o] => if o.startsWith "err:" then "ok" else "FAIL:malformed_stream_reported"
+          | _ => "FAIL:malformed_stream_reported") else
     match parseOp s.t args with
     | none => (s, "FAIL:unparsable")
     | some (kind, m, ideal, t') =>
